@@ -353,6 +353,14 @@ func (w *c20World) runCase(c *common, lg *tracelog.Log, parBin string, ci int, c
 			argv = []string{"-nosuchglobal", k.Cmd, spell(w.base + "." + fileExt)}
 		case "nooperand":
 			argv = []string{k.Cmd}
+		case "oneoperand":
+			argv = []string{"c", spell(w.base + "." + fileExt)}
+		case "oneoperand_noext":
+			argv = []string{"create", spell(w.names[0])} // the PAR file was forgotten
+		case "oneoperand_upper":
+			argv = []string{"c", spell(w.base + "." + strings.ToUpper(fileExt))}
+		case "oneoperand_noextflags":
+			argv = []string{"c", "-c", "2", spell(w.base)}
 		}
 		before, _ := sandbox.Take(root)
 		cmd := exec.Command(parBin, argv...)
